@@ -52,6 +52,7 @@ type termPlan struct {
 	RestartUnderTraffic bool   `json:"restart_under_traffic"`
 	Shrink              bool   `json:"templates_shrink_in_later_cycles"`
 	SecondSignalMs      int    `json:"second_signal_after_ms"`
+	SinkStalls          bool   `json:"message_queue_sink_stops_reading_before_the_signal"`
 }
 
 type termWitness struct {
@@ -98,6 +99,7 @@ func libDecode(proto string, addr16, d []byte, c *libC) []byte {
 type termStats struct {
 	cycles, inflight, acked, foundInFile, decodedAfterRestart, signals int64
 	optionsDecodedAfterRestart                                         int64
+	stalledSinkSignals                                                 int64
 	latMu                                                              sync.Mutex
 	latencies                                                          []float64
 	stderrCls                                                          map[string]int
@@ -553,6 +555,28 @@ func runTermPlan(run *mon.Run, p termPlan, dir string, st *termStats) {
 				}()
 				time.Sleep(wait)
 			}
+			if p.SinkStalls {
+				// the message-queue sink stops reading (a stalled broker) while decoded messages are still waiting:
+				// the producer sits in a blocked write and the queue behind it is not empty when the signal comes
+				sink.setStall(true)
+				queued := false
+				for k := 0; k < 60000 && !queued && col.alive(); k++ {
+					e := exps[k%len(exps)]
+					d, _ := dataFor(e, "ipfix")
+					snd.send(e.IP, ports["ipfix"], d)
+					if k%500 == 499 {
+						if fl, err := getFlow("127.0.0.1", statsPort); err == nil && fl["IPFIX"]["MessageQueue"] > 0 {
+							time.Sleep(50 * time.Millisecond)
+							if fl2, err := getFlow("127.0.0.1", statsPort); err == nil && fl2["IPFIX"]["MessageQueue"] > 0 {
+								queued = true
+							}
+						}
+					}
+				}
+				if queued {
+					atomic.AddInt64(&st.stalledSinkSignals, 1)
+				}
+			}
 			sendSignal()
 		}
 		if p.RestartUnderTraffic && cycle == 0 {
@@ -575,6 +599,7 @@ func runTermPlan(run *mon.Run, p termPlan, dir string, st *termStats) {
 		}
 		// ---- the exit
 		werr, exited := col.wait(20 * time.Second)
+		sink.setStall(false)
 		lat := time.Since(sigAt).Seconds()
 		if exited {
 			lat = col.exitAt.Sub(sigAt).Seconds()
@@ -732,6 +757,9 @@ func termMain(args mon.Args) {
 		plans = append(plans, termPlan{Index: 800 + i, Seed: run.Seed, Shape: "burst", When: "after-ack", Signal: []string{"TERM", "INT", "TERM"}[i%3], Cycles: 3, Exporters: 15, Workers: 4,
 			SecondSignalMs: []int{300, 50, 700}[i%3]})
 	}
+	for i := 0; i < run.Pick(2, 8); i++ {
+		plans = append(plans, termPlan{Index: 900 + i, Seed: run.Seed, Shape: "burst", When: "after-ack", Signal: []string{"TERM", "INT"}[i%2], Cycles: 2, Exporters: 10, Workers: 4, SinkStalls: true})
+	}
 	for i := 0; i < run.Pick(3, 0); i++ {
 		plans = append(plans, termPlan{Index: 2000 + i, Seed: run.Seed, Shape: "flood", When: "after-ack", Signal: "TERM", Cycles: 2, Exporters: 60, Workers: 2, Delay: 3000000})
 	}
@@ -790,13 +818,14 @@ func termMain(args mon.Args) {
 	run.Set("acknowledged_templates_found_in_cache_files", st.foundInFile)
 	run.Set("acknowledged_templates_decoded_after_restart_without_resending", st.decodedAfterRestart)
 	run.Set("of_which_options_templates", st.optionsDecodedAfterRestart)
+	run.Set("signals_sent_while_the_sink_was_stalled_and_messages_were_queued", st.stalledSinkSignals)
 	run.Set("exit_latency_s", lat)
 	run.Set("stderr_classes", st.stderrCls)
 	run.Set("race_reports_by_attribution", st.raceAttr)
 	if st.decodedAfterRestart == 0 && args.Replay == "" {
 		run.HarnessError("no acknowledged template was ever probed after a restart: the monitor observed nothing")
 	}
-	run.SetRule("the real vflow binary with private ports/pid/cache files and a TCP sink (rawSocket producer); exporters emulated from 127.x.y.z source addresses. Plans enumerate traffic shape {idle, steady, burst of template announcements from 1-500 exporters, flood with 1 worker} × signal time {after acknowledgement, mid-burst, during start-up} × {SIGTERM, SIGINT} × 2-4 stop/start cycles on the same files × elements file installed or not × restart under continuing traffic, plus plans in which every exporter re-announces a much smaller template in later cycles (the saved cache shrinks), and plans in which the signal is repeated 50-700 ms into the shutdown; thorough adds the race-built binary and strace recvfrom delay injection (3 s) that stalls the read loop across the shutdown window. Oracles: exit status 0, no panic/fatal on stderr, exit within 10 s, both cache files complete JSON and loadable with every template whose data had been seen at the sink before the signal, and after the restart data sent WITHOUT templates for every such (exporter,template) is published and equals the stand-alone decode. distinct = plan descriptor")
+	run.SetRule("the real vflow binary with private ports/pid/cache files and a TCP sink (rawSocket producer); exporters emulated from 127.x.y.z source addresses. Plans enumerate traffic shape {idle, steady, burst of template announcements from 1-500 exporters, flood with 1 worker} × signal time {after acknowledgement, mid-burst, during start-up} × {SIGTERM, SIGINT} × 2-4 stop/start cycles on the same files × elements file installed or not × restart under continuing traffic, plus plans in which every exporter re-announces a much smaller template in later cycles (the saved cache shrinks), plans in which the signal is repeated 50-700 ms into the shutdown, and plans in which the message-queue sink stops reading before the signal so that decoded messages are still queued behind a blocked producer; thorough adds the race-built binary and strace recvfrom delay injection (3 s) that stalls the read loop across the shutdown window. Oracles: exit status 0, no panic/fatal on stderr, exit within 10 s, both cache files complete JSON and loadable with every template whose data had been seen at the sink before the signal, and after the restart data sent WITHOUT templates for every such (exporter,template) is published and equals the stand-alone decode. distinct = plan descriptor")
 	run.Assume("'within a few seconds' = 10 s (the one wall-clock verdict: the property is about wall-clock time); signals are sent only after the collector has bound its sockets (a signal before signal.Notify kills any program)")
 	run.Assume("'acknowledged' = a data message using that template was already seen at the sink before the signal was sent")
 	run.Finish()
